@@ -296,7 +296,7 @@ impl IndexableVal {
 				};
 				let mut get_idx = |pos: Option<i32>, default| {
 					match pos {
-						Some(v) if v < 0 => get_len().saturating_sub((-v) as usize),
+						Some(v) if v < 0 => get_len().saturating_sub(v.unsigned_abs() as usize),
 						// No need to clamp, as iterator interface is used
 						Some(v) => v as usize,
 						None => default,
